@@ -839,6 +839,73 @@ def check_predicates(ctx):
         ctx.check("C04.A", f"{mn}:arithmetic", bad is None, f"{mn}: the computed value differs from the reference at (a, b, mod), got = {bad}", repo.loc(ex.module, fn), sample={"mnemonic": mn})
 
 
+def check_fault_rewrap(ctx, rule="C04.X"):
+    """"The error names its line": the fault wrapper builds a new exception of the fault's own class from one message string
+    (`exc.__class__(f"At line ...")`).  Every exception class of the repository that code below the executor can raise must therefore
+    be constructible from a single positional argument - a class whose __init__ wants more turns the wrapper itself into a
+    TypeError that names no line.  Decided for every `raise` of a repository class in the executor module and the modules it
+    imports from the package (transitively); builtin exception classes take one argument by definition."""
+    repo = ctx.repo
+    ex = executor(ctx)
+    hce = ex.methods.get("_handle_command_exception")
+    if hce is None:
+        raise AnalysisError("_handle_command_exception not found")
+    # how does the wrapper construct the new exception?
+    ctor = None
+    excp = A.param_names(hce)[1]
+    for n in ast.walk(hce):
+        if isinstance(n, ast.Call) and ((isinstance(n.func, ast.Attribute) and n.func.attr == "__class__" and A.norm(n.func.value) == excp)
+                                        or (isinstance(n.func, ast.Call) and dotted(n.func.func) == "type" and len(n.func.args) == 1 and A.norm(n.func.args[0]) == excp)):
+            ctor = n
+    if ctor is None:
+        ctx.check(rule, "_handle_command_exception:rebuilds-the-fault-in-its-own-class", True, sample={"wrapper": "does not construct the fault's class"}, trivial=True)
+        return
+    n_pos, kw = len(ctor.args), [k.arg for k in ctor.keywords]
+    # modules below the executor
+    todo, seen = [ex.module.name], set()
+    while todo:
+        mn = todo.pop()
+        if mn in seen or mn not in repo.modules:
+            continue
+        seen.add(mn)
+        for v in repo.modules[mn].imports.values():
+            target = v[0] if isinstance(v, tuple) else v
+            if isinstance(target, str) and target.startswith("netqasm") and "external" not in target:
+                todo.append(target)
+                if isinstance(v, tuple) and v[1]:
+                    todo.append(f"{target}.{v[1]}")
+    n_sites = 0
+    judged = {}
+    for mn in sorted(seen):
+        mod = repo.modules[mn]
+        for node in ast.walk(mod.tree):
+            if not isinstance(node, ast.Raise) or node.exc is None:
+                continue
+            f = node.exc.func if isinstance(node.exc, ast.Call) else node.exc
+            c = repo.resolve_class(mod, f)
+            if c is None:
+                continue
+            n_sites += 1
+            if c.qualname in judged:
+                continue
+            r = repo.lookup(c, "__init__")
+            why = None
+            if r is not None:
+                a = r[1].args
+                pos = [x.arg for x in a.posonlyargs + a.args][1:]
+                required = len(pos) - len(a.defaults)
+                if n_pos < required or (n_pos > len(pos) and a.vararg is None) or any(k_ not in pos and k_ not in [x.arg for x in a.kwonlyargs] and a.kwarg is None for k_ in kw):
+                    why = f"{c.name}.__init__({', '.join(pos)}) cannot be called as the fault wrapper calls it ({n_pos} positional argument{'s' if n_pos != 1 else ''})"
+                if any(d is None for d in a.kw_defaults):
+                    why = why or f"{c.name}.__init__ has required keyword-only parameters"
+            judged[c.qualname] = (c, why, repo.loc(mod, node))
+    for q, (c, why, loc) in sorted(judged.items()):
+        ctx.check(rule, f"{c.name}:constructible-by-the-fault-wrapper", why is None,
+                  f"{why}: a fault of this class (raised at {loc}) makes _handle_command_exception itself fail with a TypeError, and the error that reaches the host no longer names the line", c.loc(),
+                  sample={"class": c.name}, trivial=True)
+    ctx.check(rule, "raise-sites-below-the-executor-examined", True, sample={"modules": len(seen), "raise sites of repository classes": n_sites, "classes": len(judged)}, trivial=True)
+
+
 def check_fault_line(ctx):
     """C04.E: the command loop, executed by the checker's interpreter with a scripted _execute_command.
 
@@ -1111,6 +1178,7 @@ def run(ctx):
     check_signatures(ctx, table)
     check_memory_primitives(ctx)
     check_fault_line(ctx)
+    check_fault_rewrap(ctx, "C04.X")
     # "execution stops at that instruction": a fault must leave the state untouched (rule shared with C13)
     from . import c13
     c13.check_fault_atomicity(ctx, "C04.F")
